@@ -123,7 +123,10 @@ def run_overlap(res, tier, seed):
         N_ = [R.RTx([(R.sha256d(b"n%d.%d" % (k, q)), q, ("se",))], [(q + 2, KEYS[(q + 1) % len(KEYS)].pub)]) for q in range(1 + (k // 5) % 4)]
         skM, skN = [b.to_sk_tx(t) for t in M_], [b.to_sk_tx(t) for t in N_]
         wantM, wantN = R.merkle_root([t.id() for t in M_]), R.merkle_root([t.id() for t in N_])
-        orig = C.get_merkle_root
+        # injection point: the name consensus calls; when the tree has re-arranged that, the hash primitive of the tree code
+        from skepticoin import merkletree as MT
+        holder, name = (C, "get_merkle_root") if hasattr(C, "get_merkle_root") else (MT, "sha256d")
+        orig = getattr(holder, name)
         state = {}
 
         def hooked(lst):
@@ -136,11 +139,11 @@ def run_overlap(res, tier, seed):
                 t.join(0.2)
             return orig(lst)
 
-        C.get_merkle_root = hooked
+        setattr(holder, name, hooked)
         try:
             gotM = C.calc_merkle_root_hash(skM)
         finally:
-            C.get_merkle_root = orig
+            setattr(holder, name, orig)
         if "t" in state:
             state["t"].join(5)
         res.evaluations += 1
@@ -148,8 +151,9 @@ def run_overlap(res, tier, seed):
         # afterwards, in both orders (whichever list was computed last may be the one that is remembered wrongly)
         seq = [("N again", skN, wantN), ("M again", skM, wantM), ("N third", skN, wantN)] if k % 2 == 0 else \
               [("M again", skM, wantM), ("N again", skN, wantN), ("M third", skM, wantM)]
-        got = {"M during": gotM, "N overlapped": state.get("out", {}).get("r")}
-        want = {"M during": wantM, "N overlapped": wantN}
+        got, want = {"M during": gotM}, {"M during": wantM}
+        if "t" in state:   # (a one-element list never reaches the hash primitive: nothing overlapped then)
+            got["N overlapped"], want["N overlapped"] = state["out"].get("r"), wantN
         for key, lst, w_ in seq:
             got[key] = C.calc_merkle_root_hash(lst)
             want[key] = w_
@@ -423,7 +427,7 @@ def run(shard, tier, seed):
         # header commitment helper == reference root over the transactions' ids
         from vf import build as b
         from skepticoin import consensus as C
-        txs = [R.RTx([(R.sha256d(bytes([t, q])), q, ("se",)) for q in range(1 + t % 2)], [(t + 1, bytes(64))]) for t in range(min(n, 7))]
+        txs = [R.RTx([(R.sha256d(bytes([t, q]) + salt), q, ("se",)) for q in range(1 + t % 2)], [(t + 1, bytes(64))]) for t in range(min(n, 70))]   # long lists too: the helper is free to treat them differently
         if C.calc_merkle_root_hash([b.to_sk_tx(t) for t in txs]) != R.merkle_root([t.id() for t in txs]):
             res.fail("header_commitment", "calc_merkle_root_hash!=reference", "calc_merkle_root_hash over %d transactions differs" % len(txs), {"n": len(txs), "txs": True})
 
